@@ -477,13 +477,13 @@ Proof.
 Qed.
 
 (* every record of the block is the right excerpt *)
-Lemma block_records_excerpts F0 p d G sg idx recs npre nsamp ts S prev allp :
+Lemma block_records_excerpts F0 p d G sg idx recs npre nsamp ts C lo prev allp :
   let d1 := appended d sg in
   StreamInv (G ++ seg_data sg) F0 (d_stream d1) ->
   st_time (d_stream d1) = seg_time sg - (zlen (st_data (d_stream d))) * p ->
   seg_period sg = p -> npre = d_npre d -> nsamp = d_nsamp d ->
   Forall2 (fun i r => trigger_at (d_stream d1) i (d_npre d) (d_nsamp d) = Ok r) idx recs ->
-  block_excerpts (mkbi npre nsamp ts F0 (G ++ seg_data sg) sg S prev allp recs).
+  block_excerpts (mkbi npre nsamp ts F0 (G ++ seg_data sg) sg C lo prev allp recs).
 Proof.
   intros d1 Hst Htime Hp -> -> HF r Hr.
   assert (Hex : exists i, trigger_at (d_stream d1) i (d_npre d) (d_nsamp d) = Ok r).
@@ -508,9 +508,8 @@ Variable Q : op -> Prop.
 
 Hypothesis H_block : forall d s sg, I d s -> Q (Block sg) -> seg_first sg = F0 + zlen (s_G s) ->
   exists d' recs, process_block d sg = Ok (d', recs) /\
-    P (mkbi (s_npre s) (s_nsamp s) (s_ts s) F0 (s_G s ++ seg_data sg) sg (s_S s) (s_epoch s) (s_all s) recs) /\
-    I d' (mkss (s_npre s) (s_nsamp s) (s_ts s) (s_G s ++ seg_data sg) (s_S s)
-               (s_epoch s ++ map r_frame recs) (s_all s ++ map r_frame recs)).
+    P (block_info F0 s sg recs) /\
+    I d' (after_block_ss F0 s sg (map r_frame recs)).
 Hypothesis H_trig : forall d s ts, I d s -> Q (CfgTrig ts) ->
   I (cfg_trig d ts) (new_epoch F0 s (s_npre s) (s_nsamp s) ts).
 Hypothesis H_len : forall d s nsamp npre, I d s -> Q (CfgLen nsamp npre) ->
@@ -530,7 +529,7 @@ Proof.
       destruct (H_block d s sg HI HQo Hf) as [d' [recs [Hpb [HP HI']]]].
       cbn [run step]. rewrite Hpb. cbn [combine annotate].
       rewrite Hf, Z.eqb_refl.
-      destruct (IH d' _ HI') as [bs [Ha [Hb [Hlen Hnp]]]]; [cbn [s_G]; rewrite zlen_app; now rewrite Z.add_assoc|assumption|].
+      destruct (IH d' _ HI') as [bs [Ha [Hb [Hlen Hnp]]]]; [unfold after_block_ss; cbn [s_G]; rewrite zlen_app; now rewrite Z.add_assoc|assumption|].
       rewrite Ha. eexists. split; [reflexivity|]. split; [|split].
       * intros b [<-|Hb']; [exact HP|now apply Hb].
       * cbn [length]. now rewrite Hlen.
@@ -718,10 +717,10 @@ Proof.
       destruct (annotate F0 _ h) as [bs'|] eqn:Ea; [|discriminate]. injection Ha as Ha. rewrite <- Ha in Hbs. clear Ha.
       apply Z.eqb_eq in Ef.
       destruct pre as [|b0 pre]; cbn [app] in Hbs; injection Hbs as Hb1 Hb2.
-      * subst b. cbn [bi_F0 bi_G bi_seg map concat app]. rewrite app_nil_r. repeat split.
+      * subst b. unfold block_info. cbn [bi_F0 bi_G bi_seg map concat app]. rewrite app_nil_r. repeat split.
         rewrite zlen_app. lia.
       * subst b0 bs'. destruct (IH _ _ Ea pre b post eq_refl) as [H1 [H2 H3]]. split; [exact H1|]. split; [|exact H3].
-        rewrite H2. cbn [s_G map concat bi_seg app]. now rewrite app_assoc.
+        rewrite H2. unfold after_block_ss, block_info. cbn [s_G map concat bi_seg app]. now rewrite app_assoc.
     + destruct err; [discriminate|]. apply (IH _ _ Ha pre b post Hbs).
     + destruct err; apply (IH _ _ Ha pre b post Hbs).
 Qed.
